@@ -27,6 +27,7 @@
 #include <errno.h>
 #include "ext2fs/ext2_fs.h"
 #include "ext2fs/ext2fs.h"
+#include "ext2fs/ext2_ext_attr.h"
 
 #define MAXN 16
 static ext2_filsys fs;
@@ -160,6 +161,19 @@ static errcode_t do_share(void)
 	ext2fs_file_acl_block_set(fs, EXT2_INODE(&b), blk);
 	r = ext2fs_iblk_add_blocks(fs, EXT2_INODE(&b), 1);
 	if (r) return r;
+	{	/* the kernel also charges the clusters of every value inode the block names to each owner */
+		char *buf = malloc(fs->blocksize);
+		struct ext2_ext_attr_entry *e;
+		r = ext2fs_read_ext_attr3(fs, blk, buf, ino);
+		if (r) { free(buf); return r; }
+		for (e = (struct ext2_ext_attr_entry *)(buf + sizeof(struct ext2_ext_attr_header));
+		     (char *) e < buf + fs->blocksize - 4 && !EXT2_EXT_IS_LAST_ENTRY(e); e = EXT2_EXT_ATTR_NEXT(e))
+			if (e->e_value_inum) {
+				r = ext2fs_iblk_add_blocks(fs, EXT2_INODE(&b), (e->e_value_size + fs->blocksize - 1) / fs->blocksize);
+				if (r) { free(buf); return r; }
+			}
+		free(buf);
+	}
 	return ext2fs_write_inode_full(fs, peer, EXT2_INODE(&b), sizeof(b));
 }
 
